@@ -218,10 +218,8 @@ class Expander(object):
 def expression_of(tgt):
     """the result of an expression-like function as one expression (nested conditional expressions), or None.
     expression-like: after the docstring only single-assignment locals, `if t: return a` (no else / else: return) and a final return."""
-    cache = expression_of.__dict__.setdefault("cache", {})
-    key = (id(tgt.node))
-    if key in cache:
-        return cache[key]
+    if "_expression_of" in tgt.__dict__:          # memoised on the function object itself (ids of AST nodes are not stable keys)
+        return tgt.__dict__["_expression_of"]
     # expression statements (calls made for their effect) do not change the value that is returned: skipped
     body = [st for st in tgt.node.body if not isinstance(st, (ast.Expr, ast.Import, ast.ImportFrom, ast.Pass))]
     env = {}
@@ -259,7 +257,7 @@ def expression_of(tgt):
         r = build(body)
     except Exception:
         r = None
-    cache[key] = r
+    tgt.__dict__["_expression_of"] = r
     return r
 
 
